@@ -537,8 +537,8 @@ func (h *treeHarness) cloneFresh(t *tv) *tv {
 	return c
 }
 
-// addressable: no struct or string is held by value in an interface (and the payload is not a struct
-// by value): exactly the trees on which nothing protected may survive
+// addressable: the payload is not a struct by value: exactly the trees on which nothing protected may
+// survive
 func (t *tv) addressable(top bool) bool {
 	switch t.kind {
 	case "T":
@@ -546,9 +546,7 @@ func (t *tv) addressable(top bool) bool {
 			return false
 		}
 	case "I":
-		if t.child.kind == "T" || t.child.kind == "s" || t.child.kind == "b" {
-			return false
-		}
+		// a value held directly in an interface field is filtered on a settable copy (fix 663fde8)
 	case "L":
 		// elements that are not structs / pointers / maps / slices are not visited at all
 	}
